@@ -349,11 +349,9 @@ def lexString : M Unit := do
     presumeStr delim
     token kind
 
-/-- `Lexer::lex_normal` -/
-def lexNormal (start : Char) : M Unit := do
-  let s ← get
-  if start = ' ' || start = '\t' then lexWhitespace
-  else if start = '!' then
+/-- `Lexer::lex_normal`, every arm but whitespace (`s` is the current state) -/
+def lexOther (s : St) (start : Char) : M Unit :=
+  if start = '!' then
     (if restStartsWith s "!include".toList then failWith (mkError .include)
      else lexChoices '!' [('=', .bangEquals), ('~', .bangTilde)] none)
   else if start = '#' then lexComment
@@ -382,6 +380,11 @@ def lexNormal (start : Char) : M Unit := do
   else do
     advance
     failWith (mkError .unknownStartOfToken)
+
+/-- `Lexer::lex_normal` -/
+def lexNormal (start : Char) : M Unit := do
+  let s ← get
+  if start = ' ' || start = '\t' then lexWhitespace else lexOther s start
 
 /-- `Lexer::lex_interpolation` -/
 def lexInterpolation (interpolationStart : Tok) (start : Char) : M Unit := do
